@@ -9,7 +9,7 @@ extern crate alloc as alloc_crate;
 pub mod bindings {
     include!(concat!(env!("OUT_DIR"), "/genpay_bindings.rs"));
 }
-pub use bindings::verif::pay::t::Rec;
+pub use bindings::verif::pay::t::{Rec, Thing};
 use bindings::wit_future::FuturePayload;
 use bindings::wit_stream::StreamPayload;
 use cmhost::host::{Dir, Elem, Kind};
@@ -24,12 +24,21 @@ fn elem_of(func: &str) -> Elem {
         "s-str" => Elem::Str,
         "s-bytes" => Elem::Bytes,
         "s-rec" => Elem::Rec,
+        "s-tup" => Elem::Tup,
+        "s-thing" => Elem::Handle,
         _ => cmhost::report::harness_error("genpay: unknown payload function"),
     }
 }
 
 /// `[stream-read-0]s-str`, `[async-lower][future-write-1]s-rec`, `[stream-drop-readable-0]s-bytes`, ...
 pub fn dispatch(_module: &str, name: &str, args: &[u64]) -> u64 {
+    if name == "[resource-drop]thing" {
+        let index = args[0] as u32;
+        if !cmhost::payload::gen_handle_take(index) {
+            with(|h| h.violate("H-HANDLE", "resource.drop", format!("the guest dropped own<thing> handle {index}, which it does not own (it was transferred in a payload, or dropped before)")));
+        }
+        return 0;
+    }
     let n = name.strip_prefix("[async-lower]").unwrap_or(name);
     let Some(rest) = n.strip_prefix('[') else { cmhost::report::harness_error("genpay: unexpected import") };
     let Some((inner, func)) = rest.split_once(']') else { cmhost::report::harness_error("genpay: unexpected import") };
@@ -124,5 +133,48 @@ impl Pay for Rec {
     }
     fn default_value() -> Rec {
         Rec::make(next_default_id())
+    }
+}
+
+pub type Tup = (u16, u64, u8);
+impl Pay for Tup {
+    const ELEM: Elem = Elem::Tup;
+    const NAME: &'static str = "tuple<u16,u64,u8>";
+    fn svt() -> &'static StreamVtable<Tup> {
+        <Tup as StreamPayload>::VTABLE
+    }
+    fn fvt() -> &'static FutureVtable<Tup> {
+        <Tup as FuturePayload>::VTABLE
+    }
+    fn make(id: u32) -> Tup {
+        cmhost::payload::tup_of(id)
+    }
+    fn view(&self) -> u32 {
+        cmhost::payload::id_of_tup(*self).unwrap_or(u32::MAX)
+    }
+    fn intact(&self) -> bool {
+        cmhost::payload::id_of_tup(*self).is_some()
+    }
+    fn default_value() -> Tup {
+        cmhost::payload::tup_of(next_default_id())
+    }
+}
+impl Pay for Thing {
+    const ELEM: Elem = Elem::Handle;
+    const NAME: &'static str = "own<thing>";
+    fn svt() -> &'static StreamVtable<Thing> {
+        <Thing as StreamPayload>::VTABLE
+    }
+    fn fvt() -> &'static FutureVtable<Thing> {
+        <Thing as FuturePayload>::VTABLE
+    }
+    fn make(id: u32) -> Thing {
+        unsafe { Thing::from_handle(cmhost::payload::gen_handle_give(id)) }
+    }
+    fn view(&self) -> u32 {
+        self.handle().wrapping_sub(cmhost::payload::GEN_HANDLE_BASE)
+    }
+    fn default_value() -> Thing {
+        Thing::make(next_default_id())
     }
 }
